@@ -31,6 +31,22 @@ Theorem C12_reachability_refuted :
 Proof. exact hnsw_reachable_refuted. Qed.
 Print Assumptions C12_reachability_refuted.
 
+(** REFUTED as well (known finding C12/2): exactness in the small regime after a purge.  Three live
+    vertices (at most 2*M = 4), every one of them reachable from the entry point through the bottom layer,
+    ef = 50, no k limit -- and the search returns two: the entry point keeps its outgoing edges but lost
+    every incoming one when its neighbours were purged, and the search, having left it on the way down
+    through the upper layers, cannot come back.  [h3] is the graph implementation and model are in after
+    102 operations of corpus/C12_entry_point_without_incoming_edges.case.json. *)
+Theorem C12_exactness_after_purge_refuted :
+  length (hs_nodes h3) = 3%nat /\ hs_deleted h3 = [] /\
+  forallb (fun n => memz (n_id n) (reachable0 h3)) (hs_nodes h3) = true /\
+  match hsearch_single cfg8 h3 rq_all 50 q3 with
+  | Ok o => map fst (so_full o) = [15; 12]
+  | Err _ => False
+  end.
+Proof. exact hnsw_exactness_after_purge_refuted. Qed.
+Print Assumptions C12_exactness_after_purge_refuted.
+
 (** whatever the graph (any history, any levels, any removals): every reported pair is a vertex that is
     not soft-deleted, scored with its true distance to the preprocessed query, inside the id restriction
     and the threshold; the list is sorted by score and cut to at most k (C02's clause for HNSW) *)
